@@ -794,9 +794,27 @@ fn op_witness(em: &mut Em) {
     }
 }
 
+/// the input of theorem `fit_intercept_not_joint_witness` (Props/C11.lean), replayed on the real code
+fn op_witness_lean(em: &mut Em) {
+    let c = EnetCase { x: Array2::from_shape_fn((3, 1), |(i, _)| (i + 1) as f64), y: Array1::from_shape_fn(3, |i| (i + 1) as f64), l1r: 0.5, pen: 0.0, tol: 1e-4, max: 10, icpt: true };
+    let op = format!("fit X={} y={} tol={} max={} l1r={} pen={} icpt=1", rows_hex(&c.x), vec_hex(&c.y), hex64(c.tol), c.max, hex64(c.l1r), hex64(c.pen));
+    let mut counts = vec![];
+    em.case_valid(op, "fit", |ctx| {
+        let ds = Dataset::new(c.x.clone(), c.y.clone());
+        let m = ElasticNet::params().penalty(c.pen).l1_ratio(c.l1r).tolerance(c.tol).max_iterations(c.max).with_intercept(true).fit(&ds).unwrap();
+        let w = m.hyperplane().to_vec();
+        oracle_enet(ctx, &mut counts, &c, &w, m.intercept(), m.duality_gap(), m.n_steps(), "enet");
+        format!("ok b={} w={} gap={} steps={}", sh(m.intercept()), list(w.iter().copied(), sh), sh(m.duality_gap()), m.n_steps())
+    });
+    for k in counts {
+        em.count(&k);
+    }
+}
+
 pub fn run(em: &mut Em, rng: &mut Rng) {
     let f = if em.thorough() { 12 } else { 1 };
     op_witness(em);
+    op_witness_lean(em);
     for _ in 0..400 * f {
         op_gap(em, rng);
     }
